@@ -130,15 +130,15 @@ func originOfSlice(f *ssa.Function, v ssa.Value, depth int, seen map[ssa.Value]b
 		}
 		switch r := root.(type) {
 		case *ssa.Parameter:
-			o.kinds["recv:"+fv.Name()] = true
+			o.kinds["recv:"+fname(fv)] = true
 		case *ssa.Alloc:
 			if src := allocInit(r); src != nil {
 				if _, isParam := src.(*ssa.Parameter); isParam {
-					o.kinds["recv:"+fv.Name()] = true
+					o.kinds["recv:"+fname(fv)] = true
 				} else if c, isCall := src.(*ssa.Call); isCall && ctorLeavesZero(c, fv) {
 					o.kinds["fresh"] = true // constructor result whose field is still nil
 				} else {
-					o.kinds["copyof:"+descr(src)+"."+fv.Name()] = true
+					o.kinds["copyof:"+descr(src)+"."+fname(fv)] = true
 				}
 			} else {
 				o.kinds["fresh"] = true // zero value of a local struct
@@ -149,9 +149,9 @@ func originOfSlice(f *ssa.Function, v ssa.Value, depth int, seen map[ssa.Value]b
 	case *ssa.Field:
 		if fv := fieldVar(x); fv != nil {
 			if _, isParam := x.X.(*ssa.Parameter); isParam {
-				o.kinds["recv:"+fv.Name()] = true
+				o.kinds["recv:"+fname(fv)] = true
 			} else {
-				o.kinds["copyof:"+descr(x.X)+"."+fv.Name()] = true
+				o.kinds["copyof:"+descr(x.X)+"."+fname(fv)] = true
 			}
 		}
 	default:
@@ -281,19 +281,19 @@ func ruleA11(r *Run, p *Prog) {
 			recvT := recvTypeName(f)
 			ptrRecv := f.Signature.Recv() != nil && isPointer(f.Signature.Recv().Type())
 			onlyFresh := len(o.kinds) == 1 && o.kinds["fresh"]
-			ownSame := len(o.kinds) == 1 && o.kinds["recv:"+fv.Name()] && !o.grown && !o.resliced
-			ownGrown := o.kinds["recv:"+fv.Name()] && o.grown
-			cons := FnName(f) + "/" + fv.Name()
+			ownSame := len(o.kinds) == 1 && o.kinds["recv:"+fname(fv)] && !o.grown && !o.resliced
+			ownGrown := o.kinds["recv:"+fname(fv)] && o.grown
+			cons := FnName(f) + "/" + fname(fv)
 			switch {
 			case onlyFresh:
 				r.Ob("A11", cons, p.Pos(sx.Pos()), true, true, "stores a fresh backing array ("+o.String()+")")
 			case ownSame:
 				r.Ob("A11", cons, p.Pos(sx.Pos()), true, true, "stores the receiver's own slice unchanged")
 			case o.resliced && o.grown:
-				r.Ob("A11", cons+":reslice-overwrite", p.Pos(sx.Pos()), false, true, "the logger's "+fv.Name()+" is rebuilt inside the receiver's existing backing array ("+o.String()+", cut before growing): bytes other loggers still reference are overwritten")
+				r.Ob("A11", cons+":reslice-overwrite", p.Pos(sx.Pos()), false, true, "the logger's "+fname(fv)+" is rebuilt inside the receiver's existing backing array ("+o.String()+", cut before growing): bytes other loggers still reference are overwritten")
 			case ownGrown && !ptrRecv && f.Signature.Recv() != nil:
 				// append in place on a by-value copy of the receiver: every other holder of that header shares the array
-				key := "(zerolog." + recvT + ").*/" + fv.Name() + ":in-place-append-on-value-receiver"
+				key := "(zerolog." + recvT + ").*/" + fname(fv) + ":in-place-append-on-value-receiver"
 				a := known[key]
 				if a == nil {
 					a = &agg{pos: p.Pos(sx.Pos())}
@@ -306,9 +306,9 @@ func ruleA11(r *Run, p *Prog) {
 			case ptrRecv && f.Signature.Recv() != nil && (ownGrown || hasOtherOrigin(o)):
 				// pointer receiver updating its own storage: documented in-place API (UpdateContext)
 				ok := f.Name() == "UpdateContext"
-				r.Ob("A11", cons, p.Pos(sx.Pos()), ok, true, tern(ok, "pointer-receiver in-place update (documented: UpdateContext is restricted to freshly derived loggers)", "a pointer-receiver method rewrites the logger's "+fv.Name()+" in place ("+o.String()+"): loggers that share this backing array change together"))
+				r.Ob("A11", cons, p.Pos(sx.Pos()), ok, true, tern(ok, "pointer-receiver in-place update (documented: UpdateContext is restricted to freshly derived loggers)", "a pointer-receiver method rewrites the logger's "+fname(fv)+" in place ("+o.String()+"): loggers that share this backing array change together"))
 			default:
-				r.Ob("A11", cons, p.Pos(sx.Pos()), false, true, "the logger's "+fv.Name()+" is set to a slice whose backing array is shared with another value ("+o.String()+"): two loggers that can both append will overwrite each other")
+				r.Ob("A11", cons, p.Pos(sx.Pos()), false, true, "the logger's "+fname(fv)+" is set to a slice whose backing array is shared with another value ("+o.String()+"): two loggers that can both append will overwrite each other")
 			}
 		})
 	}
@@ -357,7 +357,7 @@ func ruleA11(r *Run, p *Prog) {
 		eachInstr(m, func(b *ssa.BasicBlock, i int, in ssa.Instruction) {
 			if sx, ok := in.(*ssa.Store); ok {
 				if fa, ok := sx.Addr.(*ssa.FieldAddr); ok && isParam(fa.X, m, 0) {
-					bad = fieldVar(fa).Name()
+					bad = fname(fieldVar(fa))
 				}
 				if isParam(sx.Addr, m, 0) {
 					bad = "*l"
@@ -464,7 +464,7 @@ func ruleA12Copy(r *Run, p *Prog) {
 			eachInstr(sc, func(b *ssa.BasicBlock, i int, in ssa.Instruction) {
 				if sx, ok := in.(*ssa.Store); ok {
 					if fa, ok := sx.Addr.(*ssa.FieldAddr); ok && namedOf(fa.X.Type()) == named {
-						ctorSets[fieldVar(fa).Name()] = true
+						ctorSets[fname(fieldVar(fa))] = true
 					}
 				}
 			})
